@@ -183,6 +183,24 @@ def PKids.faithAt : PKids Q → Nat → List Q → Bool × Q
   | .cons _ r, n+1, x => PKids.faithAt r n x
 end
 
+mutual
+/-- the exact path of `y` through `g` passes a decision within rounding distance of its breakpoint: a row with
+    `0 < |a·y − b| < 2⁻⁴⁰·(Σ|aₖyₖ| + |b|)`.  (An exact tie, `a·y = b`, is not "near": ties are decided by the `≤`.) -/
+def PT.nearBreak : PT Q → List Q → Bool
+  | .node _ c kids, y =>
+    if kids.allNone then false
+    else
+      (c.aff.mat.zip c.aff.bias).any (fun rb =>
+        let m := dot rb.1 y - rb.2
+        let s := ((rb.1.zip y).map (fun p => absQ (p.1 * p.2))).foldl (· + ·) (absQ rb.2)
+        m != 0 && decide (absQ m * (2 : Q) ^ 40 < s)) || PKids.nearBreakAt kids (c.aff.label y) y
+def PKids.nearBreakAt : PKids Q → Nat → List Q → Bool
+  | .nil, _, _ => false
+  | .cons none _, 0, _ => false
+  | .cons (some t) _, 0, y => PT.nearBreak t y
+  | .cons _ r, n+1, y => PKids.nearBreakAt r n y
+end
+
 /-- compare the implementation's `evaluate` on its tree `h` (exactly as dumped) at `x` with the expected value: a
     difference counts only where binary64 decides every decision on the path like exact arithmetic, and where it exceeds
     the rounding error of the terminal's value -/
